@@ -34,7 +34,7 @@ func genC07(o *hx.Out, tier string) {
 			all = append(all, signedWithTs(key, byte(i), ts)...)
 		}
 		cs := one(all)
-		o.Add(class, hx.ReadAll(cs, nil, key, nil), "fread", "-", hx.Hex(key[:]), hx.ChunksText(cs))
+		o.AddLater(class, hx.ReadAllLater(cs, nil, key, nil), "fread", "-", hx.Hex(key[:]), hx.ChunksText(cs))
 	}
 	depth := 3
 	if tier == "thorough" {
@@ -96,7 +96,7 @@ func genC07(o *hx.Out, tier string) {
 			all = append(all, signedFrom(key, byte(i), ts, sd[0], sd[1], sd[2])...)
 		}
 		cs := one(all)
-		o.Add(class, hx.ReadAll(cs, nil, key, nil), "fread", "-", hx.Hex(key[:]), hx.ChunksText(cs))
+		o.AddLater(class, hx.ReadAllLater(cs, nil, key, nil), "fread", "-", hx.Hex(key[:]), hx.ChunksText(cs))
 	}
 	for _, a := range tsAlphabet {
 		for _, b := range tsAlphabet {
@@ -163,7 +163,7 @@ func genC07(o *hx.Out, tier string) {
 			all = append(all, signedWithTs(key, byte(j), cur)...)
 		}
 		cs := one(all)
-		o.Add("forged-interleaved", hx.ReadAll(cs, nil, key, nil), "fread", "-", hx.Hex(key[:]), hx.ChunksText(cs))
+		o.AddLater("forged-interleaved", hx.ReadAllLater(cs, nil, key, nil), "fread", "-", hx.Hex(key[:]), hx.ChunksText(cs))
 	}
 	// outgoing timestamps: bracketed by the clock and non-decreasing (checked inside runWrites)
 	d := shipped("minimal")
